@@ -14,7 +14,9 @@ from concurrent.futures import ThreadPoolExecutor
 VERIF = os.path.dirname(os.path.dirname(os.path.abspath(__file__)))
 REPO = os.environ.get("VERIF_REPO", "/repo")
 EXTRACT = os.path.join(VERIF, "tools", "vx-extract", "target", "release", "vx-extract")
-BUILD = os.path.join(VERIF, "build")
+# VERIF_OUT redirects build/evidence/replay output of a scratch run (seed regression) away from /verif
+OUT = os.environ.get("VERIF_OUT") or VERIF
+BUILD = os.path.join(OUT, "build")
 
 SECTION_RE = re.compile(
     r'^(ret|requires|ensures|decreases|returns|prefix|suffix|loop\s+\d+\s+end|loop\s+\d+|before\s+".*"(?:@\d+/\d+)?|after\s+".*"(?:@\d+/\d+)?|replace\s+".*")\s*:\s*(.*)$'
@@ -218,6 +220,7 @@ class Gen:
         self.assumption_scan = []
         self.dropped = []
         self.anchor_lines = {}
+        self.closure_sigs = {}
 
 
 def load_unit(unit):
@@ -274,6 +277,12 @@ def build(unit, model, repo=None, mutate_false=None, tag=""):
                 ins["hint_line"] = hl
     rules = dict(cfg.get("rules", {}))
     rules.update(mcfg.get("rules", {}))
+    if os.path.exists(bpath):
+        try:
+            with open(bpath) as bf:
+                rules["pinned_closure_sigs"] = json.load(bf).get("closure_sigs", {})
+        except Exception:
+            pass
     sources = json.loads(json.dumps(cfg["sources"]))
     for sr in sources:
         for it in sr["items"]:
@@ -324,6 +333,8 @@ def build(unit, model, repo=None, mutate_false=None, tag=""):
             total_rw[k] = total_rw.get(k, 0) + v
         for (fk, akey, rel) in seg.get("anchor_lines", []):
             g.anchor_lines.setdefault(fk, {})[akey] = rel
+        for (fk, sigs) in seg.get("closure_sigs", []):
+            g.closure_sigs[fk] = sigs
         # function ranges in generated coordinates
         for fn in seg["fns"]:
             gs = ge = None
@@ -349,6 +360,9 @@ def build(unit, model, repo=None, mutate_false=None, tag=""):
                 "n_requires": count_clauses(c.get("requires", "")),
                 "n_ensures": count_clauses(c.get("ensures", "")),
                 "n_loop_contracts": len(c.get("loops", {})),
+                "closures": fn.get("closures", 0),
+                "closures_without_contract": fn.get("closures_without_contract", 0),
+                "loops": fn.get("loops", 0),
             })
         if not seg["fns"]:
             g.dropped.append(seg["key"])
